@@ -239,12 +239,14 @@ def other_keys(keys):
 
 def judge(y, lc):
     try:
-        M.Message.parse(y, crypto=lc)
+        m = M.Message.parse(y, crypto=lc)
     except M.IkeSaError:
         return None
     except Exception as ex:   # noqa
         return 'raises:' + exname(ex)
-    return 'accepted'
+    # parsed without error.  The library marks a message whose checksum it verified (is_protected, which is what IkeSa
+    # acts on): a modified datagram that comes back *with* that mark is worse than one that merely parses
+    return 'accepted-as-protected' if getattr(m, 'is_protected', False) is True else 'accepted'
 
 
 def unit_tamper(u):
@@ -365,6 +367,8 @@ def inspect(d, keys):
     types = [t for t, _, _ in chain]
     if types != [46]:
         if not types:
+            if not hdr['R']:
+                return lab, 'request-without-sk-payload', None     # a request of a keyed exchange always has content
             return lab, None, 'no-payload-at-all'      # nothing carried, nothing in the clear (see assumptions)
         return lab, 'clear-payload-types=%s' % ','.join(map(str, types)), None
     if length != len(data):
